@@ -50,6 +50,7 @@ fn exercise(it: &Item, steps: i128, deny: &[String]) -> i128 {
     if steps < 0 { return 2; }
     let text = it.to_string();
     if contains_denied(it, deny) { return 2; }
+    if std::env::var("RAND_TRACE").is_ok() { eprintln!("EXERCISE {}", text); }
     let it = it.clone();
     let r = panic::catch_unwind(move || {
         let mut is = InstructionSet::new();
